@@ -129,7 +129,7 @@ def H(routing, *steps):
 
 def step_str(st):
     if st["op"] == "open":
-        return "open(%s,%s,%s,t%d)" % (st["who"], st["mid"], st["secret"], st["tun"])
+        return "open(%s,%s,%s,t%d%s)" % (st["who"], st["mid"], st["secret"], st["tun"], ",same-connection-as-step-%d" % (st["reuse"] - 1) if st.get("reuse") else "")
     if st["op"] == "setm":
         return "set(%s,%s)" % (st["m"], st["state"])
     if st["op"] == "route":
@@ -228,6 +228,17 @@ def directed_histories():
         out.append(H(True, RT(0, "self", m), O(who, m, "right"), RT(0, "none"), own_open))
         out.append(H(True, RT(0, "self", m), O(who, m, "right"), RT(0, "none"), other_open, O(who, m, "right")))
     out.append(H(True, RT(0, "self", "m1"), O("X", "m2", "right"), O("none", "m1", "none")))
+    # several refused requests on ONE connection, then a legitimate one on the same connection: EVERY refusal is acknowledged
+    def RO(step, who, mid, secret, tun=0):
+        return dict(O(who, mid, secret, tun), reuse=step + 1)
+    out.append(H(False, O("L", "m1", "wrong"), RO(0, "L", "m1", "prefix1"), RO(1, "L", "m2", "none"), RO(2, "L", "m1", "none")))
+    out.append(H(False, O("L", "m1", "none"), O("T", "m1", "wrong"), RO(1, "T", "m1", "onechar"), RO(2, "T", "m2", "right"), RO(3, "T", "m1", "right")))
+    out.append(H(True, O("X", "m1", "right"), RO(0, "X", "m2", "wrong"), RO(1, "X", "m1", "none"), O("S", "m2", "none"), RO(2, "X", "m2", "right")))
+    out.append(H(True, RT(0, "other", "m1"), O("T", "m2", "right"), RO(1, "T", "m1", "wrong"), RO(2, "T", "m1", "right")))
+    out.append(H(False, O("half", "m1", "none"), RO(0, "half", "m1", "right"), RO(1, "half", "m3", "none")))
+    # a live local bridge whose record was replaced by ANOTHER mapping's (the bridge's own mapping decides, not the record)
+    out.append(H(True, O("L", "m1", "right"), RT(0, "other", "m2"), O("X", "m2", "right"), O("S", "m2", "none"), O("T", "m1", "right")))
+    out.append(H(True, O("L", "m1", "none"), RT(0, "none"), RT(0, "other", "m2"), O("S", "m2", "right")))
     # a mapping that stores NO secret: any non-empty presented secret is wrong, for every identity, on new and live tunnels
     for who in ("L", "T", "X", "half"):
         out.append(H(False, O(who, "m4", "wrong"), O("L", "m4", "none"), O(who, "m4", "wrong"), O(who, "m4", "wrong", 1)))
@@ -342,6 +353,11 @@ def xnode_cases(rng, thorough):
                           "steps": [XO("A", "L", "m1", "right"), XO("B", *first_target), {"op": "expire", "tun": 0},
                                     XO("C", "S", "m2", "right"), XO("B", *late)]})
     legit.append({"mode": "xnode", "tids": ["long"], "steps": [XO("C", "S", "m2", "none"), XO("A", "X", "m2", "right"), XO("B", "X", "m2", "right")]})
+    # the OWNER of a live bridge is the mapping it was created for, whatever a later record under the same id says: bridge (T, M1) on A,
+    # record expired, T opened under M2 on node C (record now says M2), then M2's parties present (T, M2) on node A
+    for late in (("X", "m2", "right"), ("S", "m2", "none"), ("S", "m2", "right")):
+        legit.append({"mode": "xnode", "tids": ["short"], "steps": [XO("A", "L", "m1", "right"), {"op": "expire", "tun": 0},
+                                                                     XO("C", "S", "m2", "right"), XO("A", *late), XO("A", "T", "m1", "right")]})
     # server-side listener on node A (the server starts the tunnel itself), requesters on the other node
     srv = []
     for who, sec in (("half", "none"), ("half", "right"), ("none", "none"), ("none", "right"), ("X", "right"), ("T", "prefix1")):
@@ -480,9 +496,12 @@ def exhaustive_histories(routing, depth):
 
 def hist_value(flags_vf_si, h, o):
     steps = []
-    for st, so in zip(h["steps"], o["steps"]):
+    conn_of = {}
+    for i, (st, so) in enumerate(zip(h["steps"], o["steps"])):
         if st["op"] == "open":
-            steps.append([0, WHO.index(st["who"]), HMID.index(st["mid"]), SECRETS.index(st["secret"]), st["tun"], so["registered"]])
+            conn_of[i] = conn_of.get(st.get("reuse", 0) - 1, i + 1) if st.get("reuse") else i + 1
+            steps.append([0, WHO.index(st["who"]), HMID.index(st["mid"]), SECRETS.index(st["secret"]), st["tun"], so["registered"],
+                          conn_of[i] if st.get("reuse") else 0])
         elif st["op"] == "setm":
             steps.append([1, HMID.index(st["m"]), HSTATES.index(st["state"])])
         elif st["op"] == "route":
@@ -789,7 +808,7 @@ def run(ctx, only_cases=None):
                           {"case": {k: v for k, v in c.items() if k != "shape"}, "observed": o})
     for h, o in zip(hists, houts):
         for st, so in zip(h["steps"], o["steps"]):
-            if st["op"] == "open" and so["registered"] != (st["who"] != "none"):
+            if st["op"] == "open" and not st.get("reuse") and so["registered"] != (st["who"] != "none"):
                 broken = broken or vlib.Broken("C04 harness: control-connection record does not match the handshake the harness performed",
                                                "%s -> %s" % (hist_str(h), so))
 
